@@ -23,7 +23,7 @@ SCRIPTS = [
     ('identity', 'DS_r <- DS_1;'),
     ('temp-and-persistent', 'DS_a := DS_1; DS_r <- DS_a;'),
     ('two-persistent', 'DS_r <- DS_1; DS_q <- DS_1;'),
-    ('with-scalars', 'DS_r <- DS_1; sc_i <- 3 + 4; sc_s <- "a,b" || "c"; sc_t := 1; sc_b <- true; sc_n <- "q""uote";'),
+    ('with-scalars', 'DS_r <- DS_1; sc_i <- 3 + 4; sc_s <- "a,b" || "c"; sc_t := 1; sc_b <- true; sc_z <- cast(null, integer); sc_a <- "x y";'),
     ('only-temporary', 'DS_a := DS_1;'),
 ]
 TRICKY = ['a,b', 'q"uote', '"quoted"', 'line\nbreak', 'cr\rhere', '', ' lead', 'trail ', 'é€', 'NULL', "it's", 'a;b', 'tab\there', '""', ',', '\n']
